@@ -340,6 +340,7 @@ Theorem C01_replay_equals_live : forall p, kparams_ok p -> forall bhl, bhl = 12%
   forall mc mp groups seq expect d hs,
   Forall (rec_ok p) (concat groups) -> (seq < 2 ^ 64)%N ->
   (N.of_nat (length (concat groups)) < 2 ^ 32)%N -> (lenN (enc_recs p (concat groups)) < 2 ^ 59)%N ->
+  (seq + N.of_nat (length (concat groups)) <= keyMaxSeq p)%N ->
   decode_to_mem p bhl mc mp (group_record (group_of p groups) seq) expect d hs =
   if (seq <? expect)%N then TmErr ESeq d hs
   else match putmem_group p mc mp (group_of p groups) seq d hs with
@@ -356,6 +357,7 @@ Theorem C01_write_then_recover : forall p, kparams_ok p -> forall bhl, bhl = 12%
   forall mc mp groups dbseq strict d hs record d' hs' dbseq',
   Forall (rec_ok p) (concat groups) -> (dbseq + 1 < 2 ^ 64)%N ->
   (N.of_nat (length (concat groups)) < 2 ^ 32)%N -> (lenN (enc_recs p (concat groups)) < 2 ^ 59)%N ->
+  (dbseq + 1 + N.of_nat (length (concat groups)) <= keyMaxSeq p)%N ->
   write_group p mc mp dbseq (group_of p groups) d hs = WgOk record d' hs' dbseq' ->
   recover_step p bhl mc mp strict record dbseq d hs = RsOk d' hs' (u64 (dbseq' + 1)).
 Proof. exact write_then_recover. Qed.
@@ -392,7 +394,7 @@ Theorem C01_get_after_group_write :
   wf_bstate c p mp tp crc decompress fname ufc verify ri st -> bs_mem st = Some d ->
   uniq_in (all_entries (abs c mp tp crc decompress fname ufc verify ri st)) ->
   (forall x, In x (all_entries (abs c mp tp crc decompress fname ufc verify ri st)) -> (e_seq x <= dbseq)%N) ->
-  Forall (rec_wf p) (concat groups) -> (dbseq + N.of_nat (length (concat groups)) <= keyMaxSeq p)%N -> heights_okl mp hs ->
+  Forall (rec_wf p) (concat groups) -> (dbseq + N.of_nat (length (concat groups)) < keyMaxSeq p)%N -> heights_okl mp hs ->
   (N.of_nat (length (concat groups)) < 2 ^ 32)%N -> (lenN (enc_recs p (concat groups)) < 2 ^ 59)%N -> wf_bytes k ->
   exists record d' hs' prev,
     write_group p (ibc c) mp dbseq (group_of p groups) d hs = WgOk record d' hs' (dbseq + N.of_nat (length (concat groups))) /\
@@ -437,6 +439,48 @@ Proof.
   split; [repeat constructor; vm_compute; congruence|].
   vm_compute. repeat split.
 Qed.
+
+(* (6g) The header's sequence numbers stay in the range of an internal key (since the fix "decodeBatchToMem must
+   reject a header whose sequence numbers leave the key range": seq > keyMaxSeq || count > keyMaxSeq - seq is
+   'invalid sequence number'): an ACCEPTED record has first seq + count <= keyMaxSeq, for arbitrary bytes; hence
+   recoverJournal's "db.seq = batchSeq + uint64(batchLen)" never wraps and db.seq stays usable as a key's
+   sequence number (C19_recover_seq_above_all uses this instead of a no-wrap hypothesis). *)
+Theorem C01_replay_seq_in_range : forall p bhl mc mp data expect d hs sq bl d' hs',
+  decode_to_mem p bhl mc mp data expect d hs = TmOk sq bl d' hs' -> (sq + bl <= keyMaxSeq p)%N.
+Proof.
+  intros p bhl mc mp data expect d hs sq bl d' hs'. unfold decode_to_mem.
+  destruct (decode_header bhl data) as [e|[s b]]; [discriminate|].
+  destruct (s <? expect)%N; [discriminate|].
+  destruct ((keyMaxSeq p <? s) || (keyMaxSeq p - s <? b))%N eqn:E; [discriminate|].
+  destruct (decode_loop _ _ _ _ _ _ _) as [st|e st| |]; try discriminate.
+  destruct (tm_n st =? BinInt.Z.of_N b)%Z; [|discriminate]. intros H. injection H as <- <- _ _.
+  apply Bool.orb_false_iff in E as [E1 E2]. apply N.ltb_ge in E1. apply N.ltb_ge in E2.
+  clear - E1 E2. Lia.lia.
+Qed.
+Print Assumptions C01_replay_seq_in_range.
+
+(* The witnesses of the PRE-FIX behaviour (the old decodeBatchToMem is kept as decode_to_mem_old / recover_step_old
+   for this statement only).  The wrap of "batchSeq + uint64(batchLen)" itself was NOT reachable: a record with
+   header seq = 2^64-1, count = 1 and one well-formed record made makeInternalKey PANIC (Open crashed) before any
+   addition; but the 12-byte record seq = 2^64-1, count = 0 was accepted and set db.seq = 2^64-1, above keyMaxSeq:
+   every later Get / Put panicked in makeInternalKey, and db.seq + 1 wrapped to sequence number 0 (both reproduced on
+   the real code).  The current decoder reports 'invalid sequence number' on both; non-strict recovery skips the
+   record and leaves db.seq alone. *)
+Theorem C01_replay_seq_wrap_refuted :
+  match MemDB.mdb_new mp with
+  | MemDB.Ok d0 =>
+      let empty := encode_header 18446744073709551615 0 in
+      let one := encode_header 18446744073709551615 1 ++ enc_recs kp [(1, [122], [90])]%N in
+      (exists d hs, recover_step_old kp 12 (ibc bytewise) mp true empty 7 d0 [] = RsOk d hs 18446744073709551615%N) /\
+      recover_step_old kp 12 (ibc bytewise) mp true one 7 d0 [1]%N = RsPanic /\
+      recover_step kp 12 (ibc bytewise) mp true empty 7 d0 [] = RsFail ESeq /\
+      recover_step kp 12 (ibc bytewise) mp true one 7 d0 [1]%N = RsFail ESeq /\
+      recover_step kp 12 (ibc bytewise) mp false empty 7 d0 [] = RsOk d0 [] 7%N /\
+      recover_step kp 12 (ibc bytewise) mp false one 7 d0 [1]%N = RsOk d0 [1]%N 7%N
+  | _ => False
+  end.
+Proof. vm_compute. repeat split; try reflexivity. eexists _, _. reflexivity. Qed.
+Print Assumptions C01_replay_seq_wrap_refuted.
 
 (* What (6d) does NOT say, as a witness: a record whose header count exceeds the records of its body (it can
    only reach recovery with a valid checksum) is reported as corrupted AFTER its records were inserted — they
